@@ -52,7 +52,11 @@ Theorem C08_moreau_identity :
 Proof. exact @moreau_identity. Qed.
 Print Assumptions C08_moreau_identity.
 
-(** ** Every nesting: flag true => prox available and correct; flag false => unavailable *)
+(** ** Every nesting: flag true => prox available and correct; flag false => unavailable.
+    [wf e]: every scale is positive, an operator tagged Identity is the identity map, the
+    SquaredL2Loss solver returns a solution of the system it is handed (nothing about the
+    flags of inner functionals: Loss.__init__ now propagates them).
+    [wf_eval e]: e contains no abstract Loss(y, f=None). *)
 Theorem C08_has_prox_true_prox_correct_all_nestings :
   forall S (e : fexpr S), wf e -> gen_has_prox e = true ->
     forall lam v, 0 < lam ->
@@ -75,6 +79,17 @@ Theorem C08_has_eval_false_eval_unavailable :
   forall S (e : fexpr S), gen_has_eval e = false -> forall x, gen_eval e x = None.
 Proof. exact gen_eval_unavailable. Qed.
 Print Assumptions C08_has_eval_false_eval_unavailable.
+
+(** a flag is set exactly when the operation is available (no side conditions for prox) *)
+Theorem C08_has_prox_set_exactly_when_prox_available :
+  forall S (e : fexpr S) lam v, is_some (gen_prox e lam v) = gen_has_prox e.
+Proof. exact has_prox_exact. Qed.
+Print Assumptions C08_has_prox_set_exactly_when_prox_available.
+
+Theorem C08_has_eval_set_exactly_when_eval_available :
+  forall S (e : fexpr S), wf_eval e -> forall x, is_some (gen_eval e x) = gen_has_eval e.
+Proof. exact has_eval_exact. Qed.
+Print Assumptions C08_has_eval_set_exactly_when_eval_available.
 
 (** the flag logic the harness evaluates on syntax trees is the flag logic of the expressions *)
 Theorem C08_executable_flags_agree :
